@@ -3317,6 +3317,9 @@ class C20(Prop):
                 break
         if int(py.get('p.maxask', '0')) > 1:
             out.append(F('prop', 'a node asked the source for the same child more than once', py.get('p.maxask'), '<=1'))
+        if mo.get('iv.ok') == '0':
+            out.append(F('model', 'view reads mirrored over a wholly virtual backing differ from the reads on the materialised tree (VirtualViewLaws.virtual_view_reads)', mo.get('iv.ok'), '1'))
+        bump(stats, 'ops', 'virtual-view-mirror:' + str(mo.get('iv.ok')))
         return out
 
 
